@@ -59,6 +59,9 @@ static_assert(sizeof(ZixBTreeNode) <= ZIX_BTREE_PAGE_SIZE, "");
 static_assert(sizeof(ZixBTreeNode) >=
                 ZIX_BTREE_PAGE_SIZE - 2U * sizeof(ZixBTreeNode*),
               "");
+
+// Iterator indexes are uint16_t, so a page must not hold more values than that
+static_assert(ZIX_BTREE_LEAF_VALS <= UINT16_MAX, "");
 #endif
 
 static ZixBTreeNode*
